@@ -654,6 +654,8 @@ func (s *csSuite) stepTime() {
 	s.w.Ctx = s.w.Ctx.WithBlockTime(s.now).WithBlockHeight(s.w.Ctx.BlockHeight() + 1)
 }
 
+func init() { suites["coinswap"] = runCoinswap }
+
 func runCoinswap(seed uint64, nOps int, outPath string) map[string]int {
 	s := &csSuite{r: &Rng{s: seed*0x9e3779b97f4a7c15 + 11}, stat: map[string]int{}}
 	s.t = NewTrace(outPath)
